@@ -221,6 +221,9 @@ def execute(scen):
             probes["failing_message_followed_by_complete_next"] = probes.get("failing_message_followed_by_complete_next", 0) + 1
             return BOOM + NEXT + "\n"
 
+        def rng_piece(msg, frac):
+            return msg[: max(1, min(len(msg) - 1, int(len(msg) * frac)))]
+
         def do_fault(kind, cut, who):
             nonlocal fired_registered
             if kind.startswith("tty_"):
@@ -228,6 +231,11 @@ def execute(scen):
                     return
                 fired_registered = tty_handler in router.clients
                 if kind == "tty_eof":
+                    if cut < 0.5:
+                        # end of input in the middle of a line (the peer died while writing): a last, unterminated piece, then EOF
+                        msg = '<newTextVector device="D" name="TXT"><oneText name="T1">never-complete</oneText></newTextVector>'
+                        stack.stdin_file.feed(rng_piece(msg, cut * 2))
+                        probes["tty_eof_inside_a_line"] = probes.get("tty_eof_inside_a_line", 0) + 1
                     stack.stdin_file.feed_eof()
                 else:
                     # an error while a message from the TTY peer is handled ends that channel (it *is* the connection)
